@@ -9,8 +9,11 @@ mkdir -p /verif/bin /verif/evidence /verif/replay /verif/logs
 build() {
   go build -tags verif -o /verif/bin/gw ./cmd/gw || return 1
   go build -tags verif -o /verif/bin/vcheck ./cmd/vcheck || return 1
+  if [ "${1:-}" = "C13" ]; then
+    go build -race -tags verif -o /verif/bin/gw-race ./cmd/gw || return 1
+  fi
 }
-if ! build 2>/verif/logs/build.err; then
+if ! build "$@" 2>/verif/logs/build.err; then
   cat /verif/logs/build.err >&2
   echo "BUILD-FAILED: /repo (with tag verif) or the harness does not build" >&2
   exit 2
